@@ -47,5 +47,8 @@ class TrashInfoCreator:
             trash_info_data = TrashinfoData(basename, content,
                                             candidate.info_dir())
             return Right(trash_info_data)
-        except (IOError, OSError) as error:
+        except (IOError, OSError, UnicodeError) as error:
+            # UnicodeError: a name that is not valid in the file system
+            # encoding cannot be written in a .trashinfo; it is a failure of
+            # this argument, not of the whole command
             return Left(UnableToCreateTrashInfoContent(error))
